@@ -1,3 +1,6 @@
+(* STATUS NOTE (third session): remarks of the form "NOT PROVED" in the comments below were written when the first theorems of this
+   file were stated; theorems added further down in this file supersede them.  The current status of the property is the row of
+   DESIGN.md section 14.4; the premises that remain are listed in DESIGN.md section 14.9. *)
 (* C06 — Extraction returns a cheapest term of the requested class.
    PROVED (Extract/Knuth.v, abstract and-or graph, all sizes): the table computed by the worklist of
    Extractor::new — repeatedly take a node of minimal candidate cost whose children are all tabled and
